@@ -199,3 +199,46 @@ def run(prog):
                      "%s.%s changes on the tick path (%s in %s) but the idle predicate never looks at it: kanata may block "
                      "while it is still counting, postponing its effect until the next key event" % (a.split("::")[-1], fld, kind, fn))
     return res
+
+
+def run_keytiming(prog):
+    """R-IDLE-KEYTIMING: every key-timing condition the parser compiles raises the bound that keeps
+    kanata ticking until key history is old enough (can_block's switch_max_key_timing test)."""
+    from kq.analysis import blocks_calling
+    from kq.core import callee_name, proj
+    from rules.r_doaction import receiver_fields
+    res = RuleResult("R-IDLE-KEYTIMING", "each compiled key-timing test raises switch_max_key_timing", floor=2)
+    f = prog.fn("kanata_parser::cfg::switch::parse_switch_case_bool")
+    res.fn(f)
+    emits = [(b, t) for b, t in f.calls() if (callee_name(t) or "").split("::")[-1].startswith("new_ticks_since")]
+    sets = []
+    for b, t in f.calls():
+        if callee_name(t) == "core::cell::Cell::set":
+            fl = receiver_fields(f, t)
+            if fl and fl[-1] == "switch_max_key_timing":
+                sets.append(b)
+    oks = [bi for bi, si, st in f.all_rvalues()
+           if st["p"]["l"] == 0 and not proj(st["p"]) and st["rv"]["k"] == "agg" and st["rv"].get("adt") == "core::result::Result" and st["rv"].get("v") == "Ok"]
+    res.inst("anchors", emits=len(emits), sets=len(sets), ok_returns=len(oks))
+    if not emits:
+        res.viol("anchors", f.loc, "parser no longer emits ticks-since opcodes")
+        return res
+    for b, t in emits:
+        nm = callee_name(t).split("::")[-1]
+        reach = f.reach_from(t["t"], avoid=sets) if t["t"] is not None else set()
+        ok = bool(sets) and not any(o in reach for o in oks)
+        res.inst("emit/" + nm, raises_bound=ok)
+        res.oblige(ok)
+        if not ok:
+            res.viol("emit/" + nm, "%s:%s" % (f.file, t.get("ln")),
+                     "a key-timing condition compiled with %s does not raise switch_max_key_timing on every successful path: the loop "
+                     "may block while the last key is younger than the threshold, freezing its age" % nm)
+    # consumer: can_block compares history age against the same field
+    g = prog.fn(K + "can_block_update_idle_waiting")
+    ef = Effects(prog)
+    idle, _, _ = ef.transitive([g.norm])
+    ok = ("kanata_state_machine::kanata::Kanata", "switch_max_key_timing") in (idle["reads"] | idle["through"])
+    res.inst("consumer/can_block-reads-bound", ok=ok)
+    if not ok:
+        res.viol("consumer/can_block-reads-bound", g.loc, "can_block_update_idle_waiting no longer consults switch_max_key_timing")
+    return res
